@@ -29,3 +29,28 @@ def run(ctx):
                  "hang or exception, no token file left, available == total",
                  level=LEVEL, extra_assumptions=["SIGINT (handler -> experiment.stop()) is not explored: the signal handler is stubbed in the virtual world",
                                                  "the pid file is written by the scheduler after the spawn; a kill between the two is one of the kill points"])
+
+
+_w_run = run
+
+
+def run(ctx):  # noqa: F811
+    """+ pairs of real TaskRunner processes (a relaunch is serialised behind a still running body): see c05.pair_exploration"""
+    from .c05 import pair_exploration
+    res = _w_run(ctx)
+    pair_exploration(ctx, res)
+    res.coverage["rule"] += ("; plus pairs of REAL TaskRunner processes on one job directory (the orphan and the relaunched process): A stopped at "
+                             "every traced line event, B started meanwhile, A resumed - exactly one successful body, never two at a time")
+    return res
+
+
+_w_replay = replay
+
+
+def replay(ctx, payload):  # noqa: F811
+    if payload.get("pair"):
+        from . import crash
+        crash.worker_init()
+        print(crash.launch_pair(payload["item"]))
+        return 0
+    return _w_replay(ctx, payload)
